@@ -29,6 +29,8 @@ NoDangling(f) == \A u \in Nodes \ Samples : f[u] # NULL => ChildrenIn(f, Nodes, 
 NoUnary(f) == \A u \in Nodes : Cardinality(ChildrenIn(f, Nodes, u)) # 1
 SamplesLeaves(f) == \A u \in Samples : ChildrenIn(f, Nodes, u) = {}
 AllAttached(f) == \A u \in Samples : f[u] # NULL
+(* sample nodes 2i, 2i+1 (an individual's two nodes) are attached or isolated together *)
+PairsTogether(f) == \A u \in Samples : (u % 2 = 0 /\ (u + 1) \in Samples) => ((f[u] = NULL) <=> (f[u + 1] = NULL))
 
 TreeOK(f) ==
     CASE TreeFilter = "any"        -> TRUE
@@ -37,6 +39,7 @@ TreeOK(f) ==
                                       /\ Cardinality(Roots(f)) <= 1
       [] TreeFilter = "complete"   -> /\ NoDangling(f) /\ SamplesLeaves(f) /\ NoUnary(f)
                                       /\ Cardinality(Roots(f)) = 1 /\ AllAttached(f)
+      [] TreeFilter = "pairs"      -> NoDangling(f) /\ SamplesLeaves(f) /\ PairsTogether(f)
       [] TreeFilter = "completeunary" -> /\ NoDangling(f) /\ SamplesLeaves(f)
                                       /\ Cardinality(Roots(f)) = 1 /\ AllAttached(f)
 
